@@ -78,6 +78,29 @@ def gen(rnd):
             else:
                 extra.append(f"from proj.{rnd.choice(['nope', 'gone.deep'])} import x")
         spec["files"][f] = "\n".join(extra) + "\n" + spec["files"][f]
+    # a package next to a sibling whose name merely starts with the same characters (a / ab, handlers / handlers_x):
+    # scanned as module_path, the sibling it imports is a module OUTSIDE module_path
+    dirs = [d for d in trees.all_dirs(spec) if d]
+    pairs = [(d1, d2) for d1 in dirs for d2 in dirs if d1 != d2 and os.path.dirname(d1) == os.path.dirname(d2) and os.path.basename(d2).startswith(os.path.basename(d1))]
+    if not pairs and dirs and rnd.random() < 0.5:
+        d1 = rnd.choice(dirs)
+        import keyword
+
+        d2 = d1 + rnd.choice(["_x", "s", "b"])
+        if not keyword.iskeyword(os.path.basename(d2)) and d2 not in dirs:
+            spec["files"][d2 + "/__init__.py"] = "helper = 1\n"
+            spec["files"][d2 + "/deep.py"] = "helper = 1\n"
+            pairs = [(d1, d2)]
+    if pairs and rnd.random() < 0.6:
+        d1, d2 = rnd.choice(pairs)
+        inside = sorted(f for f in spec["files"] if f.startswith(d1 + "/") and f.endswith(".py"))
+        if not inside:
+            spec["files"][d1 + "/user.py"] = "x = 1\n"
+            inside = [d1 + "/user.py"]
+        target = trees.mod_of("proj", d2)
+        f = rnd.choice(inside)
+        spec["files"][f] = rnd.choice([f"import {target}", f"from {target} import helper", f"import {target}.deep"]) + "\n" + spec["files"][f]
+        spec["_mp_hint"] = d1
     return spec
 
 
@@ -112,7 +135,10 @@ def one_tree(tspec, acc, rnd, sample=False, forced=None):
     root = trees.write_tree(tspec)
     try:
         dirs = trees.all_dirs(tspec)
-        mp_rel = forced["mp"] if forced else (rnd.choice(dirs) if rnd.random() < 0.35 else "")
+        hint = tspec.pop("_mp_hint", None)
+        mp_rel = forced["mp"] if forced else (hint if hint and rnd.random() < 0.7 else rnd.choice(dirs) if rnd.random() < 0.35 else "")
+        if hint and mp_rel == hint:
+            acc.count("module_path_with_imported_prefix_sibling")
         mp_abs = os.path.join(root, mp_rel) if mp_rel else root
         mpname = trees.mod_of("proj", mp_rel)
         internal = lambda n: rscan.is_internal_name(mpname, n)  # noqa: E731
@@ -203,7 +229,7 @@ def replay(case, acc):
 
 def floors(acc, tier):
     why = []
-    for c, n in (("config_comparisons", 200), ("patterns_matching_internal_names", 20), ("patterns_matching_externals", 20), ("nested_external_nodes", 50), ("include_scans_with_file_exclusion_matching_an_external_name", 50)):
+    for c, n in (("config_comparisons", 200), ("patterns_matching_internal_names", 20), ("patterns_matching_externals", 20), ("nested_external_nodes", 50), ("include_scans_with_file_exclusion_matching_an_external_name", 50), ("module_path_with_imported_prefix_sibling", 30)):
         if acc.counters[c] < n:
             why.append(f"{c}: only {acc.counters[c]}")
     if acc.counters["scan_model_errors"]:
